@@ -19,6 +19,9 @@ def make_image(spec):
     if spec.get("pages"):  # (additive) a multi-frame file whose frames differ in mode / content
         import io
         return Image.open(io.BytesIO(encode_pages(spec)))
+    if spec.get("container") == "jpeg":  # (additive) a still behind a LAZY, configurable decoder: not loaded yet
+        import io
+        return Image.open(io.BytesIO(encode_jpeg(spec)))
     n = spec.get("frames", 1)
     if n > 1:
         import io
@@ -41,9 +44,45 @@ def encode_pages(spec):
     buf = io.BytesIO()
     if spec.get("container", "tiff") == "gif":
         pages[0].save(buf, format="GIF", save_all=True, append_images=pages[1:], duration=50, loop=0, disposal=2)
+    elif spec.get("container") == "mpo":  # (additive) JPEG frames: every frame has a draft-able decoder
+        pages[0].save(buf, format="MPO", save_all=True, append_images=pages[1:], **jpeg_options(spec))
     else:
         pages[0].save(buf, format="TIFF", save_all=True, append_images=pages[1:])
     return buf.getvalue()
+
+
+def jpeg_options(spec):
+    opts = {"quality": spec.get("quality", 95)}
+    if spec.get("subsampling") is not None:
+        opts["subsampling"] = spec["subsampling"]
+    return opts
+
+
+def encode_jpeg(spec):
+    """Bytes of a JPEG file of the still `spec` (mode RGB / L / CMYK; "quality", "subsampling").  Lossy,
+    but decoding is deterministic: the pixels of the image are those of Pillow's full decode of
+    these bytes."""
+    import io
+    buf = io.BytesIO()
+    make_still(spec).save(buf, format="JPEG", **jpeg_options(spec))
+    return buf.getvalue()
+
+
+NO_ALPHA_MODES = {"1", "L", "RGB", "HSV", "CMYK"}
+
+
+def rgba_pixels(im):
+    return [list(p) for p in im.convert("RGBA").getdata()]
+
+
+def resampled_pixels(im, size):
+    """`im` (a frame in a mode without an alpha channel, decoded in full) at render resolution `size`:
+    converted to RGB and BOX-resampled -- "the image at render resolution" (Pillow's resampling,
+    applied to a decode that is independent of the instance under test)."""
+    im = im.convert("RGB")
+    if im.size != tuple(size):
+        im = im.resize(tuple(size), Image.Resampling.BOX)
+    return rgba_pixels(im)
 
 
 def make_still(spec):
@@ -201,6 +240,7 @@ class _Instances:
     def __init__(self, case):
         self.specs = case.get("instances", [])
         self.objs, self.paths, self.pos, self.nf, self.tmp = {}, {}, {}, {}, None
+        self.caller = {}  # the PIL images handed to the library by the "caller" (PIL sources)
 
     def _file(self, k):
         import os
@@ -211,6 +251,8 @@ class _Instances:
                 self.tmp = tempfile.mkdtemp(prefix="verif_seq_")
             if spec.get("pages"):
                 data, ext = encode_pages(spec), spec.get("container", "tiff")
+            elif spec.get("container") == "jpeg":
+                data, ext = encode_jpeg(spec), "jpg"
             else:
                 import io
                 buf = io.BytesIO()
@@ -228,15 +270,20 @@ class _Instances:
             w, h = spec["cells"]
             if spec.get("source") == "file":
                 self.objs[k] = cls.from_file(self._file(k), width=w, height=h)
+            elif spec.get("source") == "pil-file":
+                # (additive) a file-backed PIL image of the caller's, opened but not loaded yet
+                self.caller[k] = Image.open(self._file(k))
+                self.objs[k] = cls(self.caller[k], width=w, height=h)
             else:
-                self.objs[k] = cls(make_image(spec["img"]), width=w, height=h)
+                self.caller[k] = make_image(spec["img"])
+                self.objs[k] = cls(self.caller[k], width=w, height=h)
             self.pos[k] = 0
         return self.objs[k]
 
     def fresh(self, k):
         """A new decode of instance k's source, independent of the instance under test."""
         spec = self.specs[k]
-        return Image.open(self._file(k)) if spec.get("source") == "file" else make_image(spec["img"])
+        return Image.open(self._file(k)) if spec.get("source") in ("file", "pil-file") else make_image(spec["img"])
 
     def n_frames(self, k):
         if k not in self.nf:
@@ -249,8 +296,46 @@ class _Instances:
             im.seek(n)
         return im.mode, im.info.get("transparency") is not None, [list(p) for p in im.convert("RGBA").getdata()]
 
+    def resampled(self, k, n, size):
+        """Frame n of instance k's source, decoded afresh and in full, at render resolution `size`
+        (None for a frame whose mode has an alpha channel: its resampling depends on the setting)."""
+        im = self.fresh(k)
+        if getattr(im, "n_frames", 1) > 1:
+            im.seek(n)
+        return resampled_pixels(im, size) if im.mode in NO_ALPHA_MODES else None
+
+    def check_callers(self):
+        """After the sequence: every PIL image the caller handed in must still BE the image -- same
+        size, same pixels as a fresh full decode, frame by frame (the library may read a caller's
+        image; it must not reconfigure, shrink, close or otherwise degrade it)."""
+        out = []
+        for k, ci in sorted(self.caller.items()):
+            rec = {"inst": k, "ok": True}
+            try:
+                for n in range(self.n_frames(k)):
+                    fr = self.fresh(k)
+                    if self.n_frames(k) > 1:
+                        ci.seek(n)
+                        fr.seek(n)
+                    want, got = rgba_pixels(fr), None
+                    if ci.size == fr.size:
+                        got = rgba_pixels(ci)
+                    if got != want:
+                        rec.update(ok=False, frame=n, size=list(ci.size), want_size=list(fr.size),
+                                   ndiff=(sum(a != b for a, b in zip(got, want)) if got else len(want)))
+                        break
+            except Exception as e:  # noqa: BLE001
+                rec.update(ok=False, error=f"{type(e).__name__}: {e}")
+            out.append(rec)
+        return out
+
     def cleanup(self):
         import shutil
+        for ci in self.caller.values():
+            try:
+                ci.close()
+            except Exception:  # noqa: BLE001
+                pass
         for o in self.objs.values():
             try:
                 o.close()
@@ -278,6 +363,11 @@ def _seq_result(res, insts, k, cur, step, captured):
     if step.get("want_source_pixels"):
         res["frame_mode"], res["frame_ptrans"], res["src"] = insts.frame_pixels(k, insts.pos[k])
         res["src_size"] = list(insts.fresh(k).size)
+        if step.get("want_resampled_pixels") and "render_px" in res and res["src_size"] != res["render_px"]:
+            # (additive) off render resolution: the fresh full decode, BOX-resampled to render resolution
+            box = insts.resampled(k, insts.pos[k], res["render_px"])
+            if box is not None:
+                res["src_box"] = box
     return res
 
 
@@ -310,7 +400,10 @@ def _run_iter(insts, k, cur, step, captured):
 def run_session(case, cls, image, captured):
     insts = _Instances(case)
     try:
-        return _run_session(case, cls, image, captured, insts)
+        out = _run_session(case, cls, image, captured, insts)
+        if case.get("check_caller_sources"):  # (additive)
+            out["caller_sources"] = insts.check_callers()
+        return out
     finally:
         insts.cleanup()
 
@@ -412,6 +505,7 @@ def run_case(case):
     KittyImage._KITTY_VERSION = tuple(case.get("kitty_version", (0, 30, 0)))
     ITerm2Image._TERM = case.get("term", "")
     captured = {}
+    opened, tmpdir, path = [], None, None
     saved_ratio = term_image._cell_ratio
     orig_ts = _common.get_terminal_size
     if case.get("term_size"):  # a small terminal keeps dynamically sized renders small
@@ -428,10 +522,28 @@ def run_case(case):
     try:
         img = make_image(case["img"])
         src_pixels = None
-        if case.get("want_source_pixels"):
+        if case.get("want_source_pixels") and not case.get("src_resampled"):
             rgba = img.convert("RGBA")
             src_pixels = [list(p) for p in rgba.getdata()]
         w, h = case["cells"]
+        if case.get("source") in ("file", "pil-file"):
+            # (additive) the image comes from a file on disk: opened by the library (a fresh decode per
+            # render) / by the caller, who hands in the not-yet-loaded file-backed PIL image
+            import os
+            import tempfile
+            tmpdir = tempfile.mkdtemp(prefix="verif_src_")
+            path = os.path.join(tmpdir, "img." + {"jpeg": "jpg"}.get(case["img"].get("container"), "png"))
+            if case["img"].get("container") == "jpeg":
+                data = encode_jpeg(case["img"])
+            else:
+                import io
+                buf = io.BytesIO()
+                img.save(buf, format="PNG")
+                data = buf.getvalue()
+            with open(path, "wb") as f:
+                f.write(data)
+            img = Image.open(path)
+            opened.append(img)
         dyn = case.get("dynamic")
         if dyn is not None:
             # a DYNAMIC size (default FIT): the advertised size is asked under one environment,
@@ -446,6 +558,8 @@ def run_case(case):
             tests.set_cell_size(tuple(case.get("cell_size", (10, 20))))
             if "ratio" in dyn:
                 term_image.set_cell_ratio(dyn["ratio"])
+        elif case.get("source") == "file":
+            image = cls.from_file(path, width=w, height=h)
         else:
             image = cls(img, width=w, height=h)
         if case.get("session") is not None:
@@ -493,6 +607,21 @@ def run_case(case):
             res["a"] = list(a)
             # (for a render during which the terminal was resized: the size the render was pinned to)
             res["render_px"] = [pinned[0][0], 2 * pinned[0][1]] if pinned else list(image._get_render_size())
+        if case.get("want_source_pixels") and case.get("src_resampled") and style == "block":
+            # (additive) the source pixels AT RENDER RESOLUTION from a fresh, full decode that never went
+            # through the library (modes without an alpha channel: convert + BOX, whatever the setting);
+            # and what has become of the PIL image the caller handed in
+            fresh = Image.open(path) if tmpdir else make_image(case["img"])
+            if fresh.mode in NO_ALPHA_MODES:
+                src_pixels = resampled_pixels(fresh, res["render_px"])
+                res["src_scale"] = [fresh.size[0] / res["render_px"][0], fresh.size[1] / res["render_px"][1]]
+            if case.get("source") != "file":
+                full = rgba_pixels(Image.open(path) if tmpdir else make_image(case["img"]))
+                same = img.size == fresh.size and rgba_pixels(img) == full
+                res["caller_source"] = None if same else (
+                    f"the caller's PIL image is now {img.size[0]}x{img.size[1]} (decodes to "
+                    f"{fresh.size[0]}x{fresh.size[1]} pixels when opened afresh)" if img.size != fresh.size else
+                    "the caller's PIL image no longer has the pixels of a fresh full decode")
         if src_pixels is not None:
             res["src"] = src_pixels
         if style == "block" and alpha is None and img.mode in ("RGBA", "LA", "PA") and via == "renderer":
@@ -505,6 +634,13 @@ def run_case(case):
     except Exception as e:
         return {"error": f"{type(e).__name__}: {e}"}
     finally:
+        for o in opened:
+            try:
+                o.close()
+            except Exception:  # noqa: BLE001
+                pass
+        if tmpdir:
+            __import__("shutil").rmtree(tmpdir, ignore_errors=True)
         _common.BaseImage._get_render_data = orig
         ITerm2Image._TERM = ""
         _common.get_terminal_size = orig_ts
